@@ -116,7 +116,7 @@ Creds == {NoCred} \cup {Cred("cookie", "good", u, fs) : u \in Users, fs \in Cook
          \cup {Cred("cookie", v, "root", {"pw", "u2f"}) : v \in {"expired", "forged", "kind_cli"}}
          \cup {Cred("basic", v, u, {}) : v \in {"ok", "badpw"}, u \in {"alice", "root"}}
          \cup {Cred("kmcert", v, u, {}) : v \in {"good", "denied", "adminca"}, u \in {"alice", "root"}}
-         \cup {Cred("ipcert", v, "svc", {}) : v \in {"inside", "outside", "outside_near"}}
+         \cup {Cred("ipcert", v, "svc", {}) : v \in {"inside", "outside", "outside_near", "loopback_xff"}}
 \* operations without a target parameter
 Untargeted == {"rolerefresh", "totpgen", "authorize", "showtoken", "u2fsignreq", "webauthnbegin", "vippushstart"}
 InC06(p) == \E o \in Ops, c \in Creds, t \in {"self", "other"}, m \in {"GET", "POST"}, og \in {"none", "same", "cross"},
